@@ -16,6 +16,7 @@ pub mod c12;
 pub mod c13;
 pub mod c14;
 pub mod c15;
+pub mod c16;
 
 pub fn run(prop: &str, cfg: &Cfg, rep: &mut Report) -> bool {
     match prop {
@@ -34,6 +35,7 @@ pub fn run(prop: &str, cfg: &Cfg, rep: &mut Report) -> bool {
         "C13" => c13::run(cfg, rep),
         "C14" => c14::run(cfg, rep),
         "C15" => c15::run(cfg, rep),
+        "C16" => c16::run(cfg, rep),
         _ => return false,
     }
     true
